@@ -246,7 +246,8 @@ fn get_rustfmt_info(args: &[String]) -> Result<i32, io::Error> {
     if result.success() {
         Ok(SUCCESS)
     } else {
-        Ok(result.code().unwrap_or(SUCCESS))
+        // A rustfmt that was killed by a signal has no exit code; it failed nonetheless.
+        Ok(result.code().unwrap_or(FAILURE))
     }
 }
 
